@@ -243,8 +243,8 @@ func checkC03(c *km.Ctx) {
 				dparam = p
 			}
 		}
-		nb := storesByField(fn, "crypto/x509.Certificate")["NotBefore"]
-		na := storesByField(fn, "crypto/x509.Certificate")["NotAfter"]
+		tst := templateStores(c, fn, "crypto/x509.Certificate", "crypto/x509.Certificate")
+		nb, na := tst["NotBefore"], tst["NotAfter"]
 		if len(nb) == 0 || len(na) == 0 {
 			r.AnchorLost("R-C03-2", "NotBefore/NotAfter stores in "+lf.name)
 			continue
@@ -292,17 +292,17 @@ func checkC03(c *km.Ctx) {
 		}
 		for _, st := range nb {
 			okAll := true
-			for _, in := range resolveInst(st, st.Val) {
+			for _, in := range resolveInst(st.At, st.Val) {
 				if !isTimeNowOrEarlier(in.val) {
 					okAll = false
 				}
 			}
-			r.Add("R-C03-2", km.FuncName(fn), "NotBefore", posOf(c, st), "time.Now() (or earlier by a constant)", km.ValStr(st.Val), okAll)
+			r.Add("R-C03-2", km.FuncName(fn), "NotBefore", posOf(c, st.At), "time.Now() (or earlier by a constant)", km.ValStr(st.Val), okAll)
 		}
 		for _, st := range na {
 			good := true
 			desc := km.ValStr(st.Val)
-			for _, in := range resolveInst(st, st.Val) {
+			for _, in := range resolveInst(st.At, st.Val) {
 				add, ok := isCall(in.val, "(time.Time).Add")
 				if !ok {
 					good = false
@@ -324,7 +324,7 @@ func checkC03(c *km.Ctx) {
 					desc = sprintf("base-now=%v D=%d ns", baseOK, k)
 				}
 			}
-			r.Add("R-C03-2", km.FuncName(fn), "NotAfter", posOf(c, st), "now + D with D exactly the duration parameter (or a constant within the cap)", desc, good)
+			r.Add("R-C03-2", km.FuncName(fn), "NotAfter", posOf(c, st.At), "now + D with D exactly the duration parameter (or a constant within the cap)", desc, good)
 		}
 	}
 	// SSH
